@@ -8,7 +8,8 @@ SPEC = {
             "(each is compared against an independent reference metric); every periodic component type (dihedral, polarPhi, "
             "spinAngle, eulerPhi, eulerPsi, periodic distanceZ) x 4 wrap centres: wrap() of a value menu, and the value the "
             "variable REPORTS on a sweep of 3x24 (thorough 3x72) geometries through the whole period must lie in the interval "
-            "centred on wrapAround and be equivalent to the value reported with centre 0",
+            "centred on wrapAround and be equivalent to the value reported with centre 0"
+            " Later additions: the gradient with respect to the SECOND argument for every periodic and component-level metric; a sum of two dihedrals (reported value in the interval); a dihedral plus a distance (plain metric).",
     "assumptions": ["finite alphabet of reals; nothing is claimed for values outside it",
                     "antipodal unit vectors and quaternions at the cut locus are exempt from the derivative clause only"],
 }
